@@ -8,7 +8,7 @@ needs = sys.argv[4] if len(sys.argv) > 4 else ''
 wt = tempfile.mkdtemp(prefix='sv_', dir='/tmp')
 os.rmdir(wt)
 def sh(cmd, cwd=None):
-    p = subprocess.run(cmd, shell=True, cwd=cwd, capture_output=True, text=True)
+    p = subprocess.run(("timeout 300 " + cmd) if not cmd.startswith("git") else cmd, shell=True, cwd=cwd, capture_output=True, text=True)
     return p.returncode, (p.stdout + p.stderr)
 rc, out = sh('git -C /repo worktree add --detach %s HEAD' % wt)
 assert rc == 0, out
@@ -30,7 +30,8 @@ if ok:
     os.makedirs(dst, exist_ok=True)
     for f in ('patch.diff', 'demo.py', 'notes.md'):
         if os.path.exists(os.path.join(src, f)):
-            shutil.copy(os.path.join(src, f), dst)
+            if os.path.abspath(src) != os.path.abspath(dst):
+                shutil.copy(os.path.join(src, f), dst)
     head = subprocess.check_output('git -C /repo rev-parse --short HEAD', shell=True, text=True).strip()
     json.dump({'id': sid, 'breaks_property': prop, 'needs_to_manifest': needs,
                'verified': {'repo_head': head, 'demo_on_unpatched_tree': 'exit 0 (PASS)', 'patch_applies': True,
